@@ -86,6 +86,8 @@ def run(ctx):
                 if k == 0 and k2 == 0:
                     continue
                 tables.append(("scale k=%d,%d" % (k, k2), ["-lift", "scale", "-k", str(k), "-k2", str(k2)], ["mul", "quo", "lsh", "rsh"]))
+        for k in (30, 31, 61, 62, 63, 99):
+            tables.append(("scaledividend k=%d" % k, ["-lift", "scaledividend", "-k", str(k)], ["quo"]))
         for k in exps + [40, 48, 56]:
             tables.append(("box k=%d" % k, ["-lift", "box", "-k", str(k)], ["and", "or"]))
         for k in (7, 31, 32, 33, 36, 40, 48, 63, 64, 100):
@@ -100,6 +102,9 @@ def run(ctx):
         # one just above 2^32, and a seeded one
         for (k, k2) in ((0, rng.choice((63, 64))), (rng.choice((32, 33)), rng.choice((0, 31))), (rng.choice(exps), rng.choice(exps))):
             tables.append(("scale k=%d,%d" % (k, k2), ["-lift", "scale", "-k", str(k), "-k2", str(k2)], ["mul", "quo", "lsh", "rsh"]))
+        # the dividend alone at -2^63 / 2^63 (even bounds x 2^62) against the divisors -2 .. 2, and one more word boundary
+        for k in (62, rng.choice((30, 31, 61, 63))):
+            tables.append(("scaledividend k=%d" % k, ["-lift", "scaledividend", "-k", str(k)], ["quo"]))
         for k in (rng.choice((32, 33)), rng.choice(exps)):
             tables.append(("box k=%d" % k, ["-lift", "box", "-k", str(k)], ["and", "or"]))
         tables.append(("rshbig", ["-lift", "rshbig", "-c", str(rng.choice((64, 1000, 2 ** 20)) + rng.randrange(0, 9))], ["rshbig"]))
